@@ -14,7 +14,10 @@ for f in sorted(glob.glob("/verif/seeded/C*-*/meta.json")):
     needs = m.get("needs_to_manifest", "").replace("|", "\\|").replace("\n", " ")
     if len(needs) > 330:
         needs = needs[:330] + "…"
-    rows.append((sid, needs, ", ".join(m.get("caught_by", [])) or "—"))
+    fin = m.get("caught_by_final")
+    if isinstance(fin, list):
+        fin = ", ".join(fin) or "NONE"
+    rows.append((sid, needs, ", ".join(m.get("caught_by", [])) or "— (missed at first)", fin or ""))
 
 results = {}
 if os.path.exists("/verif/seeded/RESULTS.tsv"):
@@ -23,7 +26,7 @@ if os.path.exists("/verif/seeded/RESULTS.tsv"):
         if len(p) >= 2:
             results[p[0]] = p[1]
 
-seed_tab = "\n".join("| `%s` | %s | %s | %s |" % (sid, needs, caught, results.get(sid, "")) for sid, needs, caught in rows)
+seed_tab = "\n".join("| `%s` | %s | %s | %s |" % (sid, needs, caught, fin) for sid, needs, caught, fin in rows)
 
 rev = []
 if os.path.exists("/verif/seeded/REVERT_MATRIX.tsv"):
@@ -132,7 +135,7 @@ change is kept, the check was extended, then re-confirmed):
 * `C03-r2-2` (truncation not reported when the reader returns its last chunk together with `io.EOF`; seen by C18) →
   two more entry points in C03 (readers returning data + `io.EOF`).
 
-| seed | what it needs to manifest (author's note) | caught by (confirmation run) | regression run of its own property's check |
+| seed | what it needs to manifest (author's note) | caught by, when it was confirmed | caught by, final harness (`tools/seeds_regress.sh`: own property's check + the checks of the confirmation run) |
 |---|---|---|---|
 %s
 
